@@ -342,6 +342,35 @@ main(void)
 					print_l2();
 				}
 			}
+		} else if (hc_is("stream", 3) && (!strcmp(hc_tok[2], "after") || !strcmp(hc_tok[2], "before")) &&
+		    offset_of(hc_tok[3]) >= 0) {
+			/*
+			 * stream <hex> after <off>          ONE block of storage: the output starts where the input ends
+			 * stream <hex> before <off>         ... the output ends where the input starts
+			 * (the buffers touch and do not overlap: a legal call; off = alignment of the lower one)
+			 */
+			if (S == NULL)
+				printf("skip");
+			else {
+				int off = offset_of(hc_tok[3]);
+				int aft = !strcmp(hc_tok[2], "after");
+				void * base;
+				uint8_t * lo, * ip, * op;
+
+				in = hc_unhex(hc_tok[1], &len);
+				lo = at_offset((size_t)off, NULL, 2 * len, &base);
+				ip = aft ? lo : lo + len;
+				op = aft ? lo + len : lo;
+				if (len > 0)
+					memcpy(ip, in, len);
+				crypto_aesctr_stream(S, ip, op, len);
+				hc_puthex(op, len);
+				/* the input is const */
+				printf(memcmp(ip, in, len) == 0 ? "" : " INPUT-CHANGED");
+				free(in);
+				free(base);
+				print_l2();
+			}
 		} else if (hc_is("stream", 1) || (hc_is("stream", 2) && !strcmp(hc_tok[2], "inplace")) ||
 		    (hc_is("stream", 3) && (!strcmp(hc_tok[2], "inplace") ? offset_of(hc_tok[3]) >= 0 :
 		    (offset_of(hc_tok[2]) >= 0 && offset_of(hc_tok[3]) >= 0)))) {
@@ -408,6 +437,30 @@ main(void)
 				printf("skip");
 			else
 				bigstream(nonce, n, len, hc_ntok == 5);
+		} else if (hc_is("buf", 4) && (!strcmp(hc_tok[3], "after") || !strcmp(hc_tok[3], "before")) &&
+		    offset_of(hc_tok[4]) >= 0) {
+			/* buf <nonce> <hex> after|before <off>: touching buffers in one block of storage, as for `stream` */
+			if (curkey == NULL)
+				printf("skip");
+			else {
+				int off = offset_of(hc_tok[4]);
+				int aft = !strcmp(hc_tok[3], "after");
+				void * base;
+				uint8_t * lo, * ip, * op;
+
+				nonce = strtoull(hc_tok[1], NULL, 10);
+				in = hc_unhex(hc_tok[2], &len);
+				lo = at_offset((size_t)off, NULL, 2 * len, &base);
+				ip = aft ? lo : lo + len;
+				op = aft ? lo + len : lo;
+				if (len > 0)
+					memcpy(ip, in, len);
+				crypto_aesctr_buf(curkey, nonce, ip, op, len);
+				hc_puthex(op, len);
+				printf(memcmp(ip, in, len) == 0 ? "" : " INPUT-CHANGED");
+				free(in);
+				free(base);
+			}
 		} else if (hc_is("buf", 2) || (hc_is("buf", 4) && offset_of(hc_tok[3]) >= 0 && offset_of(hc_tok[4]) >= 0)) {
 			/* buf <nonce> <hex> [<inoff> <outoff>] */
 			if (curkey == NULL)
